@@ -116,6 +116,7 @@ Result run_plan(World &w, const Plan &p, bool verbose, Stats &st, std::string *t
 	g = Seams();
 	ledger_reset();
 	simio::reset();
+	c_impl = p.get("cimpl") != 0;
 	try {
 		w.exec(p, log, st);
 		check_pending();
@@ -147,6 +148,7 @@ static Plan make_plan(World &w, uint64_t base, uint64_t idx, int tier) {
 	p.seed = run_seed(base, idx);
 	Rng rng(p.seed);
 	w.gen(rng, p, tier);
+	p.set("cimpl", (int64_t) (rng.below(3) == 0));      // a third of the seeded runs reach the C implementations libmpt++ overrides
 	return p;
 }
 
@@ -336,6 +338,8 @@ struct Shrinker {
 			for (size_t i = 0; i < p.cfg.size(); ++i) if (p.cfg[i].first == key)
 				any |= shrink_int(p, [i](Plan &x) -> int64_t & { return x.cfg[i].second; });
 		}
+		// prefer the implementation as linked (cimpl 0) when the violation does not depend on it
+		for (size_t i = 0; i < p.cfg.size(); ++i) if (p.cfg[i].first == "cimpl" && p.cfg[i].second) { Plan q = p; q.cfg[i].second = 0; if (fails(q)) { p = q; any = true; } }
 		return any;
 	}
 	void run(Plan &p) {
